@@ -13,12 +13,21 @@
      * the purge runs on its own 10 s timer.
    Constant Fixed selects the repaired _async_add (pop before assign => key object replaced).
 
+   On top of the cache sits one service browser (browser.py: async_update_records, _enqueue_callback,
+   async_update_records_complete), started at time 0 for the types of all pointer identities: per datagram the
+   record manager hands it (new, old) pairs in datagram order -- old is the cached copy at that moment, and adds and
+   removes are applied to the cache only after the listeners were told --, it queues Added / Removed per instance with the
+   precedence Added > Removed, and fires the queue once the cache has been updated; the purge reports expired records the
+   same way.  Checked for it: LiveMatches (the instances reported Added and not since Removed are the pointers the cache
+   holds) and Alternates (C04); with PurgeNotifies = FALSE LiveMatches must fail.
+
    Checked: every lookup path of the implementation equals the contract state (Refines), i.e.
    the implementation refines Cache under the identity mapping.  With Fixed = FALSE TLC finds
    the "same record twice in one datagram, later refreshed" divergence (defect D5).           *)
 EXTENDS Integers, Sequences, FiniteSets, TLC
 
-CONSTANTS Ids, RRTable, PtrIds, TTLs, Steps, MaxEvents, MaxTicks, Fixed, MaxItems
+CONSTANTS Ids, RRTable, PtrIds, TTLs, Steps, MaxEvents, MaxTicks, Fixed, MaxItems,
+          PurgeNotifies     \* TRUE: the code; FALSE: the purge does not tell the listeners (slip)
 RRof(i) == RRTable[i]
 IsPtrId(i) == i \in PtrIds
 INSTANCE Cache
@@ -28,8 +37,12 @@ VARIABLES now,      \* virtual clock (ms)
           vobj,     \* Ids -> None | [c, ttl]   the dict VALUE object
           same,     \* Ids -> BOOLEAN           key and value are one Python object
           spec,     \* contract state (history variable, advanced in lockstep)
-          nextPurge, nev, ntick
-vars == <<now, kobj, vobj, same, spec, nextPurge, nev, ntick>>
+          nextPurge, nev, ntick,
+          live,     \* pointer identities the browser has reported Added and not since Removed
+          altBad,   \* an Added for a reported instance or a Removed for an unreported one was fired
+          hist      \* the environment history (for the replay into the real code): <<instant, items>> per datagram
+vars == <<now, kobj, vobj, same, spec, nextPurge, nev, ntick, live, altBad, hist>>
+view == <<now, kobj, vobj, same, spec, nextPurge, nev, ntick, live, altBad>>
 
 Item == [id : Ids, ttl : TTLs, fl : BOOLEAN]
 (* two-item datagrams: the second item is the same identity again or a sibling of the same (name,type,class) *)
@@ -40,6 +53,32 @@ Init == /\ now = 0
         /\ kobj = [i \in Ids |-> None] /\ vobj = [i \in Ids |-> None] /\ same = [i \in Ids |-> TRUE]
         /\ spec = [i \in Ids |-> None]
         /\ nextPurge = 10000 /\ nev = 0 /\ ntick = 0
+        /\ live = {} /\ altBad = FALSE /\ hist = <<>>
+
+(* ---- the browser's pending-callback queue: an ordered map  identity -> "A" | "R" ---- *)
+HasKey(p, i) == \E k \in 1..Len(p) : p[k][1] = i
+ValOf(p, i) == (CHOOSE k \in 1..Len(p) : p[k][1] = i)
+Enq(p, i, ch) ==
+  IF ~HasKey(p, i) THEN Append(p, <<i, ch>>)
+  ELSE IF ch = "A" \/ p[ValOf(p, i)][2] # "A" THEN [p EXCEPT ![ValOf(p, i)] = <<i, ch>>]     \* Added is never overridden
+  ELSE p
+\* the (new, old) pairs of one datagram as the browser sees them: old = cached when the datagram arrived
+RECURSIVE Pending(_, _, _, _)
+Pending(p, pre, items, n) ==
+  IF n > Len(items) THEN p
+  ELSE LET it == items[n]
+           i == it.id
+       IN IF ~IsPtrId(i) THEN Pending(p, pre, items, n + 1)
+          ELSE IF it.ttl > 0 THEN Pending(IF pre[i] = None THEN Enq(p, i, "A") ELSE p, pre, items, n + 1)
+          ELSE Pending(IF pre[i] # None THEN Enq(p, i, "R") ELSE p, pre, items, n + 1)
+RECURSIVE Fire(_, _, _, _)
+Fire(p, n, lv, bad) ==
+  IF n > Len(p) THEN <<lv, bad>>
+  ELSE LET i == p[n][1] IN
+       IF p[n][2] = "A" THEN Fire(p, n + 1, lv \cup {i}, bad \/ i \in lv)
+       ELSE Fire(p, n + 1, lv \ {i}, bad \/ i \notin lv)
+RECURSIVE SeqOf(_)
+SeqOf(S) == IF S = {} THEN <<>> ELSE LET m == CHOOSE x \in S : \A y \in S : x <= y IN <<<<m, "R">>>> \o SeqOf(S \ {m})
 
 (* one pass over the items: refresh cached VALUE objects in place (and the key object when it is
    the same object) *)
@@ -85,6 +124,8 @@ Receive(items) ==
         /\ same' = [i \in Ids |-> IF i \in removes THEN TRUE ELSE r3[3][i]]
   /\ spec' = Ingest(spec, items, now)
   /\ nev' = nev + 1
+  /\ LET f == Fire(Pending(<<>>, vobj, items, 1), 1, live, altBad) IN live' = f[1] /\ altBad' = f[2]
+  /\ hist' = Append(hist, <<now, items>>)
   /\ UNCHANGED <<now, nextPurge, ntick>>
 
 (* async_expire: [record for records in cache.values() for record in records if record.is_expired(now)] *)
@@ -94,16 +135,18 @@ Purge ==
      /\ kobj' = [i \in Ids |-> IF i \in gone THEN None ELSE kobj[i]]
      /\ vobj' = [i \in Ids |-> IF i \in gone THEN None ELSE vobj[i]]
      /\ same' = [i \in Ids |-> IF i \in gone THEN TRUE ELSE same[i]]
+     /\ LET f == Fire(IF PurgeNotifies THEN SeqOf({i \in gone : IsPtrId(i)}) ELSE <<>>, 1, live, altBad)
+        IN live' = f[1] /\ altBad' = f[2]
   /\ spec' = Purged(spec, now)
   /\ nextPurge' = nextPurge + 10000
-  /\ UNCHANGED <<now, nev, ntick>>
+  /\ UNCHANGED <<now, nev, ntick, hist>>
 
 (* discrete-event clock: advance by a grid step, but never across a purge instant *)
 Tick(d) ==
   /\ ntick < MaxTicks /\ d > 0 /\ ntick' = ntick + 1
   /\ now' = IF now + d > nextPurge THEN nextPurge ELSE now + d
   /\ now # nextPurge
-  /\ UNCHANGED <<kobj, vobj, same, spec, nextPurge, nev>>
+  /\ UNCHANGED <<kobj, vobj, same, spec, nextPurge, nev, live, altBad, hist>>
 
 Next == \/ \E d \in Datagrams : Receive(d)
         \/ \E s \in Steps : Tick(s)
@@ -116,4 +159,11 @@ ByName == kobj            \* entries_with_name, get_all_by_details, get_by_detai
 Refines == ByRecord = spec /\ ByName = spec
 NoEarlyPurge == \A i \in Ids : spec[i] # None => kobj[i] # None /\ vobj[i] # None
 Bound == now <= 200000
+LiveMatches == live = {i \in PtrIds : kobj[i] # None}
+Alternates == ~altBad
+\* a complete behaviour: no datagram and no clock step left, no purge pending
+EmitBehaviour == IF nev = MaxEvents /\ ntick = MaxTicks /\ now # nextPurge
+                 THEN PrintT(<<"BEHAVIOUR", hist, now, [i \in Ids |-> IF kobj[i] = None THEN <<-1, -1>> ELSE <<kobj[i].c, kobj[i].ttl>>],
+                                [i \in Ids |-> IF vobj[i] = None THEN <<-1, -1>> ELSE <<vobj[i].c, vobj[i].ttl>>], live>>)
+                 ELSE TRUE
 =============================================================================
